@@ -93,7 +93,7 @@ class Timeline:
     self.first = words[0]["tc"] if words else 0
     changed = []
     for j, w in enumerate(words):
-      ch = dec.feed(w["s"])
+      ch = dec.feed(w["s"], w["tc"] + w["k"])
       changed.append(ch)
       if not ch:
         continue
@@ -337,7 +337,7 @@ P_ROLL = g.profile(styles=("roll",))
 P_PAINT = g.profile(styles=("paint",))
 P_MIXED = g.profile(mix=True, max_caps=6)
 # labelled classes (asserted like the main ones unless stated in ASSUMPTIONS)
-P_CLASSES = g.profile(mix=True, undoubled=True, row_order=True, roll_base=True, pad_inside=True, paint_accumulate=True, mid_runs=True,
+P_CLASSES = g.profile(mix=True, undoubled=True, row_order=True, roll_base=True, roll_blank=True, pad_inside=True, paint_accumulate=True, mid_runs=True,
                       pop_leftover=True)
 # dedicated parts that keep exercising the triggers of the known findings
 P_C1 = g.profile(styles=("paint",), paint_c1=True, max_caps=4)
@@ -358,7 +358,7 @@ PARTS = {
   "mixed": Part("mixed", check, strategy=cases(P_MIXED), n=(800, 80000), shrinker=SHRINK, required_labels=("mode-switch",)),
   "classes": Part("classes", check, strategy=cases(P_CLASSES), n=(1200, 120000), shrinker=SHRINK,
                   required_labels=("undoubled-control", "roll:base-row-not-15", "pad-inside-displayed-row", "paint:accumulates-without-EDM",
-                                   "mid-row-run", "pop:load-over-leftover", "pop:load-over-leftover:other-rows", "mode-switch")),
+                                   "mid-row-run", "roll:blank-row", "pop:load-over-leftover", "pop:load-over-leftover:other-rows", "mode-switch")),
   "c1": Part("c1", check, strategy=cases(P_C1), n=(320, 16000), shrinker=SHRINK,
              required_labels=("paint:caption-below-earlier-paint-on-caption",)),
   "c2": Part("c2", check, strategy=cases(P_C2), n=(320, 16000), shrinker=SHRINK),
